@@ -7,6 +7,7 @@ function summary.  No path is enumerated and no solver is involved; callees from
 are inlined (bounded depth) unless the policy keeps them uninterpreted.
 """
 import ast
+import os
 
 from . import terms as tm
 from .terms import T
@@ -194,9 +195,14 @@ class Evaluator:
         self._bind_memo_for, self._bind_memo = None, {}
         self.assumptions = {}  # boolean term -> bool: mode facts fixed by the obligation (E4)
         self.bind = {}  # term -> concrete representative of its region (E4)
+        self.assume_fn = None  # optional callable(condition term) -> True / False / None: scripted outcome of environment predicates
 
     def decide(self, c):
         """Fold a condition with the obligation's mode assumptions."""
+        if isinstance(c, T) and self.assume_fn is not None:
+            r = self.assume_fn(c)
+            if r is not None:
+                return r
         if not isinstance(c, T) or not self.assumptions:
             return c
         if c in self.assumptions:
@@ -1391,6 +1397,41 @@ class Evaluator:
             if isinstance(recv, T) and recv.op == "hex" and isinstance(pos[0], str) and any(c not in "0123456789abcdef" for c in pos[0]):
                 return False
             return T(meth, (recv, pos[0]), tm.BOOL)
+        if meth == "format" and isinstance(recv, str):
+            # "a{}b".format(x): the same concatenation an f-string gives (plain fields only)
+            import string
+            parts, auto, ok = [], 0, True
+            try:
+                for lit, field, spec, conv in string.Formatter().parse(recv):
+                    if lit:
+                        parts.append(lit)
+                    if field is None:
+                        continue
+                    if conv is not None or "." in field or "[" in field:
+                        ok = False
+                        break
+                    if field == "":
+                        v = pos[auto] if auto < len(pos) else None
+                        auto += 1
+                    elif field.isdigit():
+                        v = pos[int(field)] if int(field) < len(pos) else None
+                    else:
+                        v = kw.get(field)
+                    if v is None:
+                        ok = False
+                        break
+                    if spec:
+                        parts.append(format(v, spec) if tm.is_conc(v) and not isinstance(v, (bytes, list, dict, tuple)) else T("fmt", (tm._fz(v), spec, -1), tm.STR))
+                    elif isinstance(v, str) or tm.tyof(v) == tm.STR:
+                        parts.append(v)
+                    elif tm.is_conc(v) and not isinstance(v, (bytes, list, dict, tuple)):
+                        parts.append(format(v, ""))
+                    else:
+                        parts.append(T("fmt", (tm._fz(v), None, -1), tm.STR))
+            except (ValueError, IndexError, TypeError):
+                ok = False
+            if ok:
+                return tm.scat(parts)
         if meth in ("ljust", "rjust", "center") and pos and isinstance(pos[0], int) and ty in (tm.BYTES, tm.STR):
             # padding to a width: with a known length the result is the value and (width - len) fill characters
             fill = pos[1] if len(pos) > 1 else (b" " if ty == tm.BYTES else " ")
@@ -1565,6 +1606,13 @@ class Evaluator:
         if n in ("min", "max"):
             if all(isinstance(p, int) for p in pos) and len(pos) > 1:
                 return min(pos) if n == "min" else max(pos)
+            if len(pos) == 1 and set(kw) <= {"default"}:
+                seq0 = _concrete_iter(a0) if not isinstance(a0, dict) else None
+                if seq0 is not None and tm.is_conc(seq0) and all(isinstance(x, type(seq0[0])) for x in seq0[1:]):
+                    if seq0:
+                        return min(seq0) if n == "min" else max(seq0)
+                    if "default" in kw:
+                        return kw["default"]
             return T(n, tuple(sorted((tm._fz(p) for p in pos), key=tm.sortkey)), tm.INT)
         if n == "sum" and isinstance(a0, list):
             return tm.add(a0)
@@ -1685,6 +1733,10 @@ class Evaluator:
             return T("ceil", (a0,), tm.INT)
         if n == "os.path.join":
             return T("pathjoin", tuple(pos), tm.STR)
+        if n in ("os.path.split", "os.path.basename", "os.path.dirname") and isinstance(a0, T) and a0.op == "pathjoin" and len(a0.args) == 2 \
+                and isinstance(a0.args[1], str) and a0.args[1] and "/" not in a0.args[1] and os.sep not in a0.args[1]:
+            # the last component of join(dir, "name") is "name"
+            return {"os.path.split": (a0.args[0], a0.args[1]), "os.path.basename": a0.args[1], "os.path.dirname": a0.args[0]}[n]
         return NotImplemented
 
 
